@@ -107,6 +107,7 @@ def one(ctx, i, tmproot):
                 tb = dict(base, file_kind=kind, file_pre=p.pre[kind], file_is_truth=kind == truth,
                           file_func_before=p.features.get(kind + "_func_before", False),
                           file_is_method=p.method and kind == "function",
+                          file_rebound_after_definition=p.features.get(kind + "_rebound_after_definition", False),
                           no_trailing_newline=p.features.get(kind + "_no_trailing_newline", False),
                           file_ending=p.features.get(kind + "_ending"), run_raised=raised)
                 b_tree = ast.parse(before_src[kind])
